@@ -88,7 +88,11 @@ func judgeC07(c C07Case) *h.Verdict {
 	var accts []acct
 	model := map[int]int64{}
 	for i, b := range c.Bal {
+		// accounts 0 and 2 belong to one subscriber (different rating groups), as do 1 and 3
 		a := acct{env.NewSupi(), int32(1 + i%3)}
+		if i >= 2 {
+			a = acct{accts[i-2].supi, accts[i-2].rg + 1}
+		}
 		env.SetAccount(a.supi, a.rg, b, "1")
 		accts = append(accts, a)
 		model[i] = b
@@ -252,6 +256,9 @@ func judgeC07(c C07Case) *h.Verdict {
 				return v.Failf("reservation-below-zero", "%s: balance %d", desc, q)
 			}
 		}
+	}
+	if len(c.Bal) >= 3 {
+		v.Label("subscriber-with-two-rating-groups")
 	}
 	for _, n := range changes {
 		if n >= 3 && sawEq && sawGt && refundAfterExhaust {
